@@ -52,15 +52,15 @@ class ActorTr(ML.Tr):
     def __init__(self, cls: ast.ClassDef):
         super().__init__({})
         self.cls = cls
-        self.methods = {f.name: f for f in cls.body if isinstance(f, (ast.FunctionDef, ast.AsyncFunctionDef))}
+        self.all_methods = {f.name: f for f in cls.body if isinstance(f, (ast.FunctionDef, ast.AsyncFunctionDef))}
         self.adjust_power: set = set()
         self.may_raise = False  # a missing cache entry may be read (only handlers can express the KeyError)
 
     # ------------------------------------------------------------------------------------------ helpers
     def method(self, name: str):
-        if name not in self.methods:
+        if name not in self.all_methods:
             raise Unsupported(f"method {name} not found")
-        return self.methods[name]
+        return self.all_methods[name]
 
     def bind_args(self, fn, call: ast.Call) -> dict:
         params = [a.arg for a in fn.args.args][1:]
@@ -176,7 +176,7 @@ class ActorTr(ML.Tr):
         return super().cond(t, env, T, E)
 
     # ------------------------------------------------------------------------------------------ effects
-    def is_site(self, n: ast.AST) -> bool:
+    def effect_site(self, n: ast.AST) -> bool:
         if isinstance(n, ast.Subscript) and isinstance(n.ctx, ast.Load) and ast.unparse(n.value) == "self._system_bounds":
             return True
         if isinstance(n, ast.Call) and isinstance(n.func, ast.Attribute):
@@ -190,23 +190,8 @@ class ActorTr(ML.Tr):
                 return True
         return False
 
-    def sites(self, n: ast.AST) -> list:
-        """Effect / state-read sites of an expression in Python's evaluation order."""
-        if isinstance(n, (ast.BoolOp, ast.IfExp, ast.Lambda, ast.ListComp, ast.SetComp, ast.DictComp, ast.GeneratorExp)):
-            if any(self.is_site(x) for x in ast.walk(n)):
-                raise Unsupported(f"state access inside a short-circuit / nested scope: {ast.unparse(n)[:60]}")
-            return []
-        out: list = []
-        for c in ast.iter_child_nodes(n):
-            out += self.sites(c)
-        if self.is_site(n):
-            out.append(n)
-        return out
-
-    def seq(self, sites: list, env: Env, k):
-        if not sites:
-            return k(env)
-        return self.site(sites[0], env, lambda e: self.seq(sites[1:], e, k))
+    def is_site(self, n: ast.AST, env: Env) -> bool:
+        return self.effect_site(n) or super().is_site(n, env)
 
     def read_sb(self, env: Env, k):
         """Read `self._system_bounds[ids]`: k(env, Val) on the path where the entry exists, KeyError otherwise."""
@@ -226,6 +211,8 @@ class ActorTr(ML.Tr):
 
     def site(self, n: ast.AST, env: Env, k):
         h = f"@h{id(n)}"
+        if not self.effect_site(n):
+            return super().site(n, env, k)
         if isinstance(n, ast.Subscript):
             self.is_ids(n.slice, env)
             return self.read_sb(env, lambda e, v: k(e.bind(h, v)))
@@ -318,44 +305,33 @@ class ActorTr(ML.Tr):
             return (lambda body: body), env.bind(name, v)
         return super().assign(name, value, env, others)
 
-    def block(self, stmts, env: Env, K: Kont, fa: dict):
-        if not stmts:
-            return K.end(env)
+    def block1(self, stmts, env: Env, K: Kont, fa: dict):
         s, rest = stmts[0], stmts[1:]
         go = lambda e: self.block(rest, e, K, fa)  # noqa: E731
         if isinstance(s, ast.Expr) and not isinstance(s.value, ast.Constant) and not ML._only_logging([s]):
             v = unawait(s.value)
-            st = self.sites(v)
-            if not st or st[-1] is not v:
+            if not (self.effect_site(v) or self.callee(v) is not None):
                 raise Unsupported(f"statement {ast.unparse(s)[:70]}")
-            return self.seq(st, env, go)
+            return go(env)  # executed as a site by `block`
         if isinstance(s, ast.Assign) and len(s.targets) == 1 and isinstance(s.targets[0], ast.Subscript):
             t = s.targets[0]
             if ast.unparse(t.value) != "self._system_bounds" or "@sb" not in env.vals:
                 raise Unsupported(f"store {ast.unparse(t)}")
-
-            def store(e: Env):
-                self.is_ids(t.slice, e)
-                v = self.want(self.val(s.value, e), "SB")
-                name = self.fresh("sbv")
-                sb = e.vals["@sb"]
-                e2 = e.copy()
-                e2.none = e2.none - {sb.key}
-                e2.narrow[sb.key] = name
-                return Let(name, "Matryoshka.SystemBounds", v, go(e2))
-            return self.seq(self.sites(s.value), env, store)
+            self.is_ids(t.slice, env)
+            v = self.want(self.val(s.value, env), "SB")
+            name = self.fresh("sbv")
+            sb = env.vals["@sb"]
+            e2 = env.copy()
+            e2.none = e2.none - {sb.key}
+            e2.narrow[sb.key] = name
+            return Let(name, "Matryoshka.SystemBounds", v, go(e2))
         if isinstance(s, ast.AnnAssign) and isinstance(s.target, ast.Name) and s.value is not None:
             env = env.copy()
             env.decl[s.target.id] = ML.ann_type(ast.unparse(s.annotation))
-            s = ast.Assign(targets=[s.target], value=s.value)
-        head = {ast.Assign: "value", ast.Return: "value", ast.If: "test", ast.Match: "subject"}.get(type(s))
-        if head is not None and getattr(s, head) is not None:
-            st = self.sites(getattr(s, head))
-            if st:
-                return self.seq(st, env, lambda e: ML.Tr.block(self, [s] + rest, e, K, fa))
+            return ML.Tr.block1(self, [ast.Assign(targets=[s.target], value=s.value)] + rest, env, K, fa)
         if isinstance(s, ast.Match) and self.val(s.subject, env).ty == "Result":
             return self.match_result(s, rest, env, K, fa)
-        return ML.Tr.block(self, [s] + rest, env, K, fa)
+        return ML.Tr.block1(self, stmts, env, K, fa)
 
     def match_result(self, s: ast.Match, rest, env: Env, K: Kont, fa: dict):
         """`match result:` with class patterns of the power distributor's result types."""
@@ -393,7 +369,9 @@ class FuncK(Kont):
 
     def ret(self, value, env):
         if value is None:
-            raise Unsupported("bare return")
+            if not self.implicit_none:
+                raise Unsupported("bare return")
+            return self.end(env)
         return self.out(env, self.tr.want(self.tr.val(value, env), self.rty))
 
     def end(self, env):
@@ -464,6 +442,9 @@ def generate(repo: pathlib.Path) -> str:
     if cls is None:
         raise Unsupported("class PowerManagingActor not found")
     tr = ActorTr(cls)
+    special = {"__init__", "_run", "_bounds_tracker", "_send_reports", "_add_system_bounds_tracker", "_calculate_shifted_bounds",
+               "_calculate_target_power", "_send_updated_target_power", "_stop"}
+    tr.methods = {f.name: f for f in cls.body if isinstance(f, ast.FunctionDef) and f.name not in special}
     out = ["import Frequenz.Model.Matryoshka", "import Frequenz.Extracted.Proposal", "",
            "namespace Extracted.PowerManagerActor", ""]
 
